@@ -103,13 +103,25 @@ def check(case):
     try:
         def build():
             if backend == 'dict':
-                return database.DictDatabase(src) if form == 'list' else database.DictDatabase(*src)
+                if form == 'list':
+                    outer = list(src)
+                    db_ = database.DictDatabase(outer)
+                    del outer[:]  # the caller re-uses its list; the database is built from what it was given
+                    return db_
+                return database.DictDatabase(*src)
             paths = []
             for i, p in enumerate(src):
                 path = Path(tmp) / f'part{i}.json'
                 path.write_text(json.dumps(p))
                 paths.append(str(path) if i % 2 == 0 else path)
-            return database.JsonDatabase(paths) if form == 'list' else database.JsonDatabase(*paths)
+            if form == 'list':
+                db_ = database.JsonDatabase(paths)
+                # the caller re-uses / changes its list of paths before the (lazy) first load
+                paths.reverse()
+                paths.append(Path(tmp) / 'does-not-exist.json')
+                del paths[:1]
+                return db_
+            return database.JsonDatabase(*paths)
         if backend == 'json':
             tmp = tempfile.mkdtemp(prefix='verif_c19_')
         try:
